@@ -519,5 +519,26 @@ pub fn grid(thorough: bool) -> Vec<CbCfg> {
             });
         }
     }
+    // a wait below one millisecond (0.9 ms): the breaker is open at the instant it opened and
+    // a millisecond later the wait is over
+    for time_based in [false, true] {
+        v.push(CbCfg {
+            time_based,
+            window_size: 1,
+            window_ms: 50,
+            threshold: 0.5,
+            min_calls: Some(1),
+            wait_ms: 1,
+            wait_shave_us: 100,
+            permitted: 1,
+            slow_ms: None,
+            slow_rate: 1.0,
+            custom_classifier: false,
+            fallback: false,
+            fallback_gated: false,
+            classifier_first: false,
+            preset_start: false,
+        });
+    }
     v
 }
